@@ -136,6 +136,10 @@ impl Utxos {
     #[verifier::external_body]
     fn get(&self, key: &OutPoint) -> (r: Option<(TxOut, Height)>) ensures r is Some <==> self@.contains_key(*key), r matches Some(v) ==> v == self@[*key] { unimplemented!() }
 }
+// C01: the stable address index lists exactly the outputs of the UTXO map that pay an address, under that address and their height
+spec fn index_ok(u: Map<OutPoint, (TxOut, Height)>, idx: Set<(Address, Height, OutPoint)>, n: Network) -> bool {
+    forall|a: Address, h: Height, o: OutPoint| #[trigger] idx.contains((a, h, o)) <==> (u.contains_key(o) && u[o].1 == h && address_of_script(u[o].0.script_pubkey@, n) == Some(a))
+}
 // the answer of UtxoSet::get_utxo while a block is being ingested: the ingesting block's changes reverted
 spec fn rview(u: Map<OutPoint, (TxOut, Height)>, d: &UtxosDelta, o: OutPoint) -> Option<(TxOut, Height)> {
     if d.all_removed_outpoints@.contains(o) { if d.utxos@.contains_key(o) { Some(d.utxos@[o]) } else { None } }
@@ -361,6 +365,8 @@ spec fn paused_ok(s: &UtxoSet, g: Map<OutPoint, (TxOut, Height)>) -> bool {
     s.ingesting_block matches Some(ib) ==> {
         &&& ib.utxos_delta.wf()
         &&& view_ok(s.utxos@, &ib.utxos_delta, g, s.network)
+        // C01: the address index is exactly the address-paying part of the UTXO map, also in the middle of an ingestion
+        &&& index_ok(s.utxos@, s.address_utxos.m@, s.network)
         &&& block_static(&ib.block)
         &&& block_domain(&ib.block, ib.next_tx_idx as int, ib.next_input_idx as int, ib.next_output_idx as int, s.utxos@, &ib.utxos_delta, g)
         // schedule independence: the set is g with exactly the work up to the stored position applied
@@ -467,11 +473,11 @@ impl UtxoSet {
 //@ rewrite R3 "!DUPLICATE_TX_IDS\.contains\(&outpoint\.txid\)" => "!vp_is_known_duplicate(&outpoint.txid)"
 //@ spec
 //@| requires
-//@|     old(utxos_delta).wf(), view_ok(old(self).utxos@, old(utxos_delta), g, old(self).network),
+//@|     old(utxos_delta).wf(), view_ok(old(self).utxos@, old(utxos_delta), g, old(self).network), index_ok(old(self).utxos@, old(self).address_utxos.m@, old(self).network),
 //@|     // [assumption, stated] an outpoint is created once (no BIP-30 duplicates): it is neither in the set nor touched by this block
 //@|     !g.contains_key(outpoint), !old(utxos_delta).utxos@.contains_key(outpoint), !old(self).utxos@.contains_key(outpoint),
 //@| ensures
-//@|     final(utxos_delta).wf(), view_ok(final(self).utxos@, final(utxos_delta), g, final(self).network),
+//@|     final(utxos_delta).wf(), view_ok(final(self).utxos@, final(utxos_delta), g, final(self).network), index_ok(final(self).utxos@, final(self).address_utxos.m@, final(self).network),
 //@|     final(self).network == old(self).network, final(self).next_height == old(self).next_height, final(self).ingesting_block == old(self).ingesting_block,
 //@|     final(utxos_delta).all_removed_outpoints@ == old(utxos_delta).all_removed_outpoints@,
 //@|     final(self).utxos@ == old(self).utxos@.insert(outpoint, (txout_of(output), old(self).next_height)),
@@ -502,11 +508,11 @@ impl UtxoSet {
 //@ r24
 //@ spec
 //@| requires
-//@|     old(utxos_delta).wf(), view_ok(old(self).utxos@, old(utxos_delta), g, old(self).network),
+//@|     old(utxos_delta).wf(), view_ok(old(self).utxos@, old(utxos_delta), g, old(self).network), index_ok(old(self).utxos@, old(self).address_utxos.m@, old(self).network),
 //@|     tx.outs@.len() < 0x1_0000_0000,
 //@|     Self::outputs_fresh(tx, start_idx as int, old(self).utxos@, old(utxos_delta), g),
 //@| ensures
-//@|     final(utxos_delta).wf(), view_ok(final(self).utxos@, final(utxos_delta), g, final(self).network),
+//@|     final(utxos_delta).wf(), view_ok(final(self).utxos@, final(utxos_delta), g, final(self).network), index_ok(final(self).utxos@, final(self).address_utxos.m@, final(self).network),
 //@|     final(self).network == old(self).network, final(self).next_height == old(self).next_height, final(self).ingesting_block == old(self).ingesting_block,
 //@|     frame_ok(tx, old(self).utxos@, old(utxos_delta), final(self).utxos@, final(utxos_delta), g),
 //@|     // a pause names the first output that has NOT been inserted; it lies in the range still to do
@@ -516,7 +522,7 @@ impl UtxoSet {
 //@ loop 1 binder=it
 //@| invariant
 //@|     vp_vout == it.index@, tx.outs@.len() < 0x1_0000_0000,
-//@|     utxos_delta.wf(), view_ok(self.utxos@, utxos_delta, g, self.network),
+//@|     utxos_delta.wf(), view_ok(self.utxos@, utxos_delta, g, self.network), index_ok(self.utxos@, self.address_utxos.m@, self.network),
 //@|     self.network == old(self).network, self.next_height == old(self).next_height, self.ingesting_block == old(self).ingesting_block,
 //@|     Self::outputs_fresh(tx, if it.index@ >= start_idx { it.index@ as int } else { start_idx as int }, self.utxos@, utxos_delta, g),
 //@|     frame_ok(tx, old(self).utxos@, old(utxos_delta), self.utxos@, utxos_delta, g),
@@ -540,7 +546,7 @@ impl UtxoSet {
 //@ r24
 //@ spec
 //@| requires
-//@|     old(utxos_delta).wf(), view_ok(old(self).utxos@, old(utxos_delta), g, old(self).network),
+//@|     old(utxos_delta).wf(), view_ok(old(self).utxos@, old(utxos_delta), g, old(self).network), index_ok(old(self).utxos@, old(self).address_utxos.m@, old(self).network),
 //@|     !tx.cb ==> Self::inputs_unspent(tx, start_idx as int, old(utxos_delta)),
 //@|     tx.ins@.len() < 0x1_0000_0000,
 //@|     forall|i: int| 0 <= i < tx.ins@.len() ==> (#[trigger] op_of(tx.ins@[i].previous_output)).txid != tx.id,
@@ -548,7 +554,7 @@ impl UtxoSet {
 //@|     frame_ok(tx, old(self).utxos@, old(utxos_delta), final(self).utxos@, final(utxos_delta), g),
 //@|     // the transaction's own outputs are not touched by the removal of its inputs
 //@|     forall|o: OutPoint| o.txid == tx.id ==> #[trigger] touched(o, final(self).utxos@, final(utxos_delta), g) == touched(o, old(self).utxos@, old(utxos_delta), g),
-//@|     final(utxos_delta).wf(), view_ok(final(self).utxos@, final(utxos_delta), g, final(self).network),
+//@|     final(utxos_delta).wf(), view_ok(final(self).utxos@, final(utxos_delta), g, final(self).network), index_ok(final(self).utxos@, final(self).address_utxos.m@, final(self).network),
 //@|     final(self).network == old(self).network, final(self).next_height == old(self).next_height, final(self).ingesting_block == old(self).ingesting_block,
 //@|     r matches Slicing::Paused(k) ==> start_idx <= k < tx.ins@.len() && Self::inputs_unspent(tx, k as int, final(utxos_delta)),
 //@|     // exactly the inputs from start_idx up to the pause (or all of them) have been removed from the set
@@ -560,7 +566,7 @@ impl UtxoSet {
 //@|     forall|o: OutPoint| o.txid == tx.id ==> #[trigger] touched(o, self.utxos@, utxos_delta, g) == touched(o, old(self).utxos@, old(utxos_delta), g),
 //@|     frame_ok(tx, old(self).utxos@, old(utxos_delta), self.utxos@, utxos_delta, g),
 //@|     !tx.cb, self.utxos@ == apply_ins(old(self).utxos@, tx, start_idx as int, if it.index@ >= start_idx { it.index@ as int } else { start_idx as int }),
-//@|     utxos_delta.wf(), view_ok(self.utxos@, utxos_delta, g, self.network),
+//@|     utxos_delta.wf(), view_ok(self.utxos@, utxos_delta, g, self.network), index_ok(self.utxos@, self.address_utxos.m@, self.network),
 //@|     self.network == old(self).network, self.next_height == old(self).next_height, self.ingesting_block == old(self).ingesting_block,
 //@|     Self::inputs_unspent(tx, if it.index@ >= start_idx { it.index@ as int } else { start_idx as int }, utxos_delta),
 //@end
@@ -573,7 +579,7 @@ impl UtxoSet {
 //@ rewrite R9 "self\.insert_outputs\(tx, start_output_idx, utxos_delta, stats\)" => "self.insert_outputs(tx, start_output_idx, utxos_delta, stats, Ghost(g))"
 //@ spec
 //@| requires
-//@|     old(utxos_delta).wf(), view_ok(old(self).utxos@, old(utxos_delta), g, old(self).network),
+//@|     old(utxos_delta).wf(), view_ok(old(self).utxos@, old(utxos_delta), g, old(self).network), index_ok(old(self).utxos@, old(self).address_utxos.m@, old(self).network),
 //@|     tx.ins@.len() < 0x1_0000_0000, tx.outs@.len() < 0x1_0000_0000,
 //@|     tx_domain(tx, start_input_idx as int, start_output_idx as int, old(self).utxos@, old(utxos_delta), g),
 //@|     // outputs are only begun once all inputs are done
@@ -586,7 +592,7 @@ impl UtxoSet {
 //@|         Slicing::Done(_) => apply_outs(ins_applied(old(self).utxos@, tx, start_input_idx as int, tx.ins@.len() as int), tx, start_output_idx as int, tx.outs@.len() as int, old(self).next_height),
 //@|     }),
 //@|     r matches Slicing::Paused(p) ==> p.0 >= start_input_idx && p.1 >= start_output_idx,
-//@|     final(utxos_delta).wf(), view_ok(final(self).utxos@, final(utxos_delta), g, final(self).network),
+//@|     final(utxos_delta).wf(), view_ok(final(self).utxos@, final(utxos_delta), g, final(self).network), index_ok(final(self).utxos@, final(self).address_utxos.m@, final(self).network),
 //@|     final(self).network == old(self).network, final(self).next_height == old(self).next_height, final(self).ingesting_block == old(self).ingesting_block,
 //@|     frame_ok(tx, old(self).utxos@, old(utxos_delta), final(self).utxos@, final(utxos_delta), g),
 //@|     // a pause names the position to resume from, and the rest of the transaction is still in the domain there
@@ -604,7 +610,9 @@ impl UtxoSet {
 //@| requires
 //@|     old(self).ingesting_block is None, g == old(self).utxos@, old(self).next_height < u32::MAX,
 //@|     block_static(&block), block_domain(&block, 0, 0, 0, old(self).utxos@, &delta_default_spec(), g),
+//@|     index_ok(old(self).utxos@, old(self).address_utxos.m@, old(self).network),
 //@| ensures
+//@|     index_ok(final(self).utxos@, final(self).address_utxos.m@, final(self).network),
 //@|     r matches Slicing::Paused(_) ==> final(self).ingesting_block is Some && paused_ok(final(self), g) && final(self).next_height == old(self).next_height,
 //@|     r matches Slicing::Done(_) ==> final(self).ingesting_block is None && final(self).next_height == old(self).next_height + 1
 //@|         && final(self).utxos@ == apply_txs(g, block.txs@, block.txs@.len() as int, old(self).next_height),
@@ -626,6 +634,7 @@ impl UtxoSet {
 //@| requires paused_ok(old(self), g), old(self).next_height < u32::MAX,
 //@| ensures
 //@|     r is Some <==> old(self).ingesting_block is Some,
+//@|     old(self).ingesting_block is Some ==> index_ok(final(self).utxos@, final(self).address_utxos.m@, final(self).network),
 //@|     // at EVERY pause the readers' view is the one from before the ingestion began, and the stored position is exact ...
 //@|     r matches Some(Slicing::Paused(_)) ==> final(self).ingesting_block is Some && paused_ok(final(self), g)
 //@|         && final(self).next_height == old(self).next_height,
@@ -635,7 +644,7 @@ impl UtxoSet {
 //@ loop 1 binder=it
 //@| invariant
 //@|     vp_tx_idx == it.index@, self.ingesting_block is None, self.next_height == old(self).next_height,
-//@|     block_static(&block), utxos_delta.wf(), view_ok(self.utxos@, &utxos_delta, g, self.network),
+//@|     block_static(&block), utxos_delta.wf(), view_ok(self.utxos@, &utxos_delta, g, self.network), index_ok(self.utxos@, self.address_utxos.m@, self.network),
 //@|     block_domain(&block, if it.index@ >= next_tx_idx { it.index@ as int } else { next_tx_idx as int }, next_input_idx as int, next_output_idx as int, self.utxos@, &utxos_delta, g),
 //@|     it.index@ > next_tx_idx ==> next_input_idx == 0 && next_output_idx == 0,
 //@|     self.utxos@ == progress(g, &block, if it.index@ >= next_tx_idx { it.index@ as int } else { next_tx_idx as int }, next_input_idx as int, next_output_idx as int, self.next_height),
